@@ -4,18 +4,20 @@
    hypothesis: no hub/topic queue overflows - a notification is dropped only when its destination topic is
    not loaded, as hub.go:247-263 does).  Lemmas: Sys/PresProofs.v.  Theorems only. *)
 From Coq Require Import List NArith ZArith Bool.
-From Tinode Require Import Sys.Pres Sys.PresProofs.
+From Tinode Require Import Sys.Pres Sys.PresProofs Sys.PresLeak.
 Import ListNotations.
 Open Scope N_scope.
 
 (* ---------------------------------------------------------------- never leaks (SAFETY, every state, every step) *)
 
-(* Only the delivery of a notification hands {pres} frames to sessions, and every frame handed out by a p2p or
-   group topic goes to an attached session whose user's cached mode (want & given) has P unless what is acs or
+(* Only the delivery of a notification hands {pres} frames to sessions, and every {pres} frame handed out by a p2p
+   or group topic goes to an attached session whose user's cached mode (want & given) has P unless what is acs or
    gone - the exemptions of passesPresenceFilters (topic.go:230-235) are exactly these two; every frame handed out
    by a 'me' topic goes to an attached session of its owner.  `entitled_at` evaluates this in the state in
-   which the delivering topic ran its handler.  For ALL states and operations, hence all histories and
-   interleavings (`reach` is not even needed). *)
+   which the delivering topic ran its handler.  The one other operation that hands frames to sessions is a
+   {note} (Note): the {info} read/recv/kp frames go to attached sessions of users whose mode has R
+   (`entitled_note`, evaluated right after the note: the note changes marks, never modes).  For ALL states and
+   operations, hence all histories and interleavings (`reach` is not even needed). *)
 Theorem c10_no_leak : forall s o, Forall (entitled_at s o) (snd (step s o)).
 Proof. exact no_leak_all. Qed.
 Print Assumptions c10_no_leak.
@@ -41,10 +43,20 @@ Theorem c10_no_leak_reachable : forall s i g rest sid user top src w,
   match top with
   | TMe u => user = u
   | t => exists x, get_top s t = Some x /\ In (sid, user) (t_sess x) /\ cached x user = true /\
-                   (exempt w = false -> is_presencer (p_mode (get_pud x user)) = true)
+                   (is_info w = false -> exempt w = false -> is_presencer (p_mode (get_pud x user)) = true)
   end.
 Proof. exact no_leak_reach. Qed.
 Print Assumptions c10_no_leak_reachable.
+
+(* ... and the {info} frames a p2p/group topic makes from a {note} of an attached session reach only attached
+   sessions of CURRENT NON-DELETED subscribers whose mode has R (in-topic receipts need R, not P: topic.go:1291). *)
+Theorem c10_no_leak_note : forall s sid0 u0 r w0 seq sid user top src w,
+  reach s -> In (Frame sid user top src w) (snd (step s (Note sid0 u0 r w0 seq))) ->
+  is_info w = true /\
+  exists x, get_top (fst (step s (Note sid0 u0 r w0 seq))) top = Some x /\ In (sid, user) (t_sess x) /\
+            cached x user = true /\ is_reader (p_mode (get_pud x user)) = true.
+Proof. exact no_leak_note_reach. Qed.
+Print Assumptions c10_no_leak_note.
 
 (* At the SOURCE: a notification which a p2p/group topic addresses to its subscribers' 'me' topics
    (presSubsOffline: on/off/msg/del/upd/...) goes only to non-deleted subscribers whose mode has P; the
@@ -62,6 +74,74 @@ Theorem c10_no_leak_source_single : forall t uid mode w c sk oo g,
     (exempt w = false -> is_presencer m = true \/ (w = WUpd /\ is_joiner m = true)).
 Proof. exact pres_single_offline_addressed. Qed.
 Print Assumptions c10_no_leak_source_single.
+
+(* infoSubsOffline (pres.go:479-501), {info} read / recv / kp to the subscribers' 'me' topics: only to NON-DELETED
+   subscribers whose mode has P and R, with Src = the name under which that subscriber knows the topic. *)
+Theorem c10_no_leak_source_info : forall t x from w sk g,
+  In g (info_subs_offline t x from w sk) ->
+  exists uid p, m_dst g = TMe uid /\ In (uid, p) (t_users x) /\ p_deleted p = false /\ m_what g = w /\
+    is_presencer (p_mode p) = true /\ is_reader (p_mode p) = true /\
+    m_src g = original t uid /\ m_sender g = t /\ m_zombie g = false.
+Proof. exact info_subs_offline_addressed. Qed.
+Print Assumptions c10_no_leak_source_info.
+
+(* EVERY notification a step puts in flight, whatever the operation (publish, {note}, message deletion,
+   subscribe, leave, unsubscribe, eviction, ban, mute, unload, delivery of another notification ...): a message
+   in flight after the step was in flight before, or is `fresh_ok`: if it carries CONTENT (anything but on / off
+   / ?unkn / ?none / gone / acs) and goes to a 'me' topic, then its sender is a p2p/group topic in whose state
+   right after the step the addressee is a non-deleted subscriber with P (upd: or J), and R too for an {info},
+   and Src is that subscriber's name for the topic; an {info} goes to 'me' topics only. *)
+Theorem c10_no_leak_emitted : forall s o g,
+  reach s -> In g (s_net (fst (step s o))) -> In g (s_net s) \/ fresh_ok (fst (step s o)) g.
+Proof. exact step_emits_reach. Qed.
+Print Assumptions c10_no_leak_emitted.
+
+(* hence, over all histories: every content notification in flight in a reachable state was addressed like that
+   in some reachable state *)
+Theorem c10_no_leak_in_flight : forall s, reach s -> Forall sent_ok (s_net s).
+Proof. exact in_flight_reach. Qed.
+Print Assumptions c10_no_leak_in_flight.
+
+Theorem c10_info_only_to_me : forall s g,
+  reach s -> In g (s_net s) -> is_info (m_what g) = true -> exists uid, m_dst g = TMe uid.
+Proof. exact info_only_to_me. Qed.
+Print Assumptions c10_info_only_to_me.
+
+(* END TO END (all histories, all interleavings): a 'me' topic hands a content notification to its owner's
+   sessions without any check of its own (procPresReq passes it through: PresLeak.proc_content), so the
+   sender's check is the only one - and it holds: whenever a session receives on 'me' a {pres} msg / del / read
+   / recv / upd or an {info} read / recv / kp with source `src`, then in some reachable state a p2p/group
+   topic t with `src` = its name as this user sees it had this user as a NON-DELETED subscriber whose mode has P
+   (upd: or J), and R for {info}.  A user who deleted the subscription (p2p: the perUser entry stays, with
+   deleted = true and the old want/given), was evicted, or never subscribed, gets none of them. *)
+Theorem c10_no_leak_content_end_to_end : forall s i g rest sid user u src w,
+  reach s -> take_nth i [] (s_net s) = Some (g, rest) ->
+  In (Frame sid user (TMe u) src w) (snd (step s (Deliver i))) -> is_content w = true ->
+  user = u /\
+  exists t s0 x p,
+    (match t with TMe _ => False | _ => True end) /\ reach s0 /\ get_top s0 t = Some x /\
+    In (u, p) (t_users x) /\ p_deleted p = false /\
+    (is_presencer (p_mode p) = true \/ (w = WUpd /\ is_joiner (p_mode p) = true)) /\
+    (is_info w = true -> is_reader (p_mode p) = true) /\ src = original t u.
+Proof. exact no_leak_content_me. Qed.
+Print Assumptions c10_no_leak_content_end_to_end.
+
+(* the scenario "one p2p party deletes the subscription, the topic stays loaded, the other party types and reads":
+   the removed user's session gets "gone" and nothing after it, although the deleted entry keeps P and R *)
+Example c10_removed_user_example :
+  (forall sid top src w, In (Frame sid 1 top src w) (snd (run init h_removed)) -> sid = 3 ->
+     w = WOn \/ w = WOff \/ w = WGone \/ w = WMsg) /\
+  In (Frame 3 1 (TMe 1) (TMe 2) WGone) (snd (run init h_removed)) /\
+  s_net (fst (run init h_removed)) = [] /\
+  exists x p, get_top (fst (run init h_removed)) (TP2P 1 2) = Some x /\ aget N.eqb 1 (t_users x) = Some p /\
+              p_deleted p = true /\ is_presencer (p_mode p) = true /\ is_reader (p_mode p) = true /\
+              t_loaded x = true.
+Proof. exact removed_gets_nothing. Qed.
+
+(* the hypotheses of c10_no_leak_content_end_to_end are satisfiable: a detached subscriber with P and R gets the
+   key press notification on 'me' *)
+Example c10_receipt_example : In (Frame 3 1 (TMe 1) (TMe 2) WIKp) (snd (run init h_receipt)).
+Proof. exact receipt_delivered. Qed.
 
 (* On 'me': an on/off of a contact reaches the owner's sessions only through an entry that is enabled
    (enabled = the owner's P in the related topic, loadContacts / +en / +dis) or is being enabled. *)
